@@ -223,3 +223,21 @@ VARIANTS += [
     dict(prop="C19", name="counter-not-advanced", expect="ROUTE|counter-increments-once",
          edits=[dict(file=CTXF, find="                    let dest_shard = shard_picker(ctx, RecordId::from(*i), &val);\n                    *i += 1;", replace="                    let dest_shard = shard_picker(ctx, RecordId::from(*i), &val);")]),
 ]
+
+HIF = "ipa-core/src/report/hybrid_info.rs"
+VARIANTS += [
+    # ---------------- C10 ----------------
+    dict(prop="C10", name="aad-drops-timestamp", expect="FIELDS-aad|HybridConversionInfo.timestamp",
+         edits=[dict(file=HIF, find="            + self.conversion_site_domain.len()\n            + std::mem::size_of_val(&self.key_id)\n            + std::mem::size_of_val(&self.timestamp)\n            + std::mem::size_of_val(&self.epsilon)\n            + std::mem::size_of_val(&self.sensitivity);\n        let mut r = Vec::with_capacity(info_len);\n\n        r.extend_from_slice(DOMAIN.as_bytes());",
+                     replace="            + self.conversion_site_domain.len()\n            + std::mem::size_of_val(&self.key_id)\n            + std::mem::size_of_val(&self.epsilon)\n            + std::mem::size_of_val(&self.sensitivity);\n        let mut r = Vec::with_capacity(info_len);\n\n        r.extend_from_slice(DOMAIN.as_bytes());"),
+                dict(file=HIF, find="        r.push(self.key_id);\n        r.extend_from_slice(&self.timestamp.to_be_bytes());\n        r.extend_from_slice(&self.epsilon.to_be_bytes());\n        r.extend_from_slice(&self.sensitivity.to_be_bytes());\n\n        debug_assert_eq!(\n            r.len(),\n            info_len,\n            \"HPKE Info", replace="        r.push(self.key_id);\n        r.extend_from_slice(&self.epsilon.to_be_bytes());\n        r.extend_from_slice(&self.sensitivity.to_be_bytes());\n\n        debug_assert_eq!(\n            r.len(),\n            info_len,\n            \"HPKE Info")]),
+    dict(prop="C10", name="guard-off-by-one", expect="BOUNDS|report::hybrid::EncryptedHybridImpressionReport::<BK>::key_id",
+         edits=[dict(file=RHF, find="        if bytes.len() < Self::INFO_OFFSET {\n            return Err(InvalidHybridReportError::Length(\n                bytes.len(),\n                Self::INFO_OFFSET,\n            ));\n        }\n        Ok(Self {\n            data: bytes,\n            phantom_data: PhantomData,\n        })\n    }\n\n    /// ## Errors\n    /// If the match key shares in the report cannot be decrypted (e.g. due to a\n    /// failure of the authenticated encryption).\n    /// ## Panics\n    /// Should not panic. Only panics if a `Report` constructor failed to validate the\n    /// contents properly, which would be a bug.\n    pub fn decrypt<P: PrivateKeyRegistry>(\n        &self,\n        key_registry: &P,\n    ) -> Result<HybridImpressionReport<BK>, InvalidHybridReportError> {", count=1,
+                     replace="        if bytes.len() < Self::KEY_IDENTIFIER_OFFSET {\n            return Err(InvalidHybridReportError::Length(\n                bytes.len(),\n                Self::INFO_OFFSET,\n            ));\n        }\n        Ok(Self {\n            data: bytes,\n            phantom_data: PhantomData,\n        })\n    }\n\n    /// ## Errors\n    /// If the match key shares in the report cannot be decrypted (e.g. due to a\n    /// failure of the authenticated encryption).\n    /// ## Panics\n    /// Should not panic. Only panics if a `Report` constructor failed to validate the\n    /// contents properly, which would be a bug.\n    pub fn decrypt<P: PrivateKeyRegistry>(\n        &self,\n        key_registry: &P,\n    ) -> Result<HybridImpressionReport<BK>, InvalidHybridReportError> {")]),
+    dict(prop="C10", name="empty-record-index", expect="BOUNDS|report::hybrid::EncryptedHybridReport::<BK, V>::from_bytes",
+         edits=[dict(file=RHF, find="        let Some(&event_type) = bytes.first() else {\n            return Err(InvalidHybridReportError::Length(0, 1));\n        };\n        match HybridEventType::try_from(event_type)? {", replace="        match HybridEventType::try_from(bytes[0])? {")]),
+    dict(prop="C10", name="second-open-default-info", expect="BIND|Conversion:open#1:info-is-parsed-info",
+         edits=[dict(file=RHF, find="        let plaintext_btt = open_in_place(sk, self.encap_key_btt(), &mut ct_btt, &info_enc_bytes)?;\n\n        Ok(HybridConversionReport::<V> {", replace="        let plaintext_btt = open_in_place(sk, self.encap_key_btt(), &mut ct_btt, HELPER_ORIGIN.as_bytes())?;\n\n        Ok(HybridConversionReport::<V> {")]),
+    dict(prop="C10", name="info-length-not-checked", expect="BOUNDS|report::hybrid_info::HybridConversionInfo::from_bytes",
+         edits=[dict(file=HIF, find="        if rest.len() != FIXED_LEN {", replace="        if rest.len() > FIXED_LEN {")]),
+]
